@@ -173,6 +173,7 @@ def check_one(h, cfg_desc):
 
     f: list[Fail] = []
     before = store.snapshot(h)
+    meta_before = [(n.idx, list(h[n].metadata.items())) for n in h]
     try:
         dot = h.render_dot(mk_config(cfg_desc))
         src = dot.source
@@ -180,6 +181,19 @@ def check_one(h, cfg_desc):
         return [exc_fail("render", e)], None
     if store.snapshot(h) != before:
         f.append(Fail("render", "hugr-modified", ""))
+    elif [(n.idx, list(h[n].metadata.items())) for n in h] != meta_before:
+        f.append(Fail("render", "hugr-modified:metadata-order", ""))
+    # one renderer used twice draws the same thing twice (nothing accumulates in the renderer)
+    try:
+        from hugr.hugr.render import DotRenderer
+
+        rr = DotRenderer(mk_config(cfg_desc))
+        s1 = rr.render(h).source
+        s2 = rr.render(h).source
+        if s1 != src or s2 != src:
+            f.append(Fail("render", "renderer-reused:" + ("first" if s1 != src else "second") + "-rendering-differs", f"{len(src)} / {len(s1)} / {len(s2)} characters"))
+    except Exception as e:  # noqa: BLE001
+        f.append(exc_fail("render-again", e))
     nodes, clusters, edges, labels, dup = parse(src)
     if dup:
         f.append(Fail("nodes", "duplicate-statement", f"{dup[:3]}"))
@@ -225,6 +239,8 @@ def build_edited(case):
     from hugr.hugr import Hugr
 
     h = Hugr(store.mk_pool_op(case["root"]))
+    for k, v in (case.get("root_meta") or {}).items():
+        h[h.root].metadata[k] = v  # metadata of the root node, in this key order
     for s in case["mut"]:
         store.apply_valid_mutation(h, s, set())
     return h
@@ -278,7 +294,7 @@ def nontrivial(case):
 
 
 def edited_strategy(tier):
-    return st.fixed_dictionaries({"root": st.sampled_from(["module", "dfg", "custom"]), "mut": st.one_of(store.reuse_mutations(25 if tier == "quick" else 45), store.burst_mutations(), store.burst_mutations()), "cfg": CFG, "cfg2": CFG})
+    return st.fixed_dictionaries({"root": st.sampled_from(["module", "dfg", "custom"]), "mut": st.one_of(store.reuse_mutations(25 if tier == "quick" else 45), store.burst_mutations(), store.burst_mutations()), "root_meta": st.one_of(st.none(), st.fixed_dictionaries({"name": st.sampled_from(["main", "ü", ""]), "k": st.integers(0, 2)}), st.fixed_dictionaries({"k": st.integers(0, 2), "name": st.just("n")})), "cfg": CFG, "cfg2": CFG})
 
 
 def edited_nontrivial(case):
